@@ -3,7 +3,7 @@
    counter + fallback), CounterExtendsProofs (extends), plus totality on
    every table. *)
 From Verif Require Import Base.GoSem Css.Counters Css.CounterSpec Css.CounterAbs Css.CounterProofs
-                          Css.CounterTableProofs Css.CounterExtendsProofs.
+                          Css.CounterTableProofs Css.CounterExtendsProofs Css.CounterSpecFacts.
 From Coq Require Import List ZArith NArith Bool Lia ZifyBool ZifyNat ZifyN.
 Import ListNotations.
 Open Scope Z_scope.
@@ -262,4 +262,106 @@ Proof.
       unfold abs_opt_ns.
       destruct (ns_is_none (d_prefix dec)) eqn:Ep, (ns_is_none (d_suffix dec)) eqn:Es; cbn [dflt];
         rewrite ?(ns_is_none_symbol _ Ep); reflexivity.
+Qed.
+
+(* ------------------------------------------------------------------ the specification determines the string *)
+
+Lemma wfr_rs_ok d : wfr d -> rs_ok (absr d).
+Proof.
+  intros (_ & _ & He & _). unfold rs_ok. rewrite absr_system, absr_symbols, slen_map.
+  unfold enough_symbols in He. destruct (abs_system d); auto. lia.
+Qed.
+
+Lemma wf_resolved_ok c : wf_table c -> forall m r, resolved (abs_table c) m r -> rs_ok r.
+Proof.
+  intros Hwf m r Hr.
+  assert (Hd : exists d, lookup c m = Some d).
+  { destruct (lookup c m) as [d|] eqn:E; [eauto|].
+    exfalso. inversion Hr; subst; unfold abs_table in *; rewrite E in *; discriminate. }
+  destruct Hd as [d Hl].
+  destruct (resolve_counter_spec c Hwf m d Hl) as (d' & _ & Hr' & Hw & _).
+  rewrite (resolved_functional _ _ _ Hr _ Hr'). apply wfr_rs_ok. assumption.
+Qed.
+
+(* RenderValue returns THE string the specification defines *)
+Theorem render_value_unique c n v s :
+  wf_table c -> in_i64 v -> counter_repr (abs_table c) n v s -> RenderValue c v n = Ok s.
+Proof.
+  intros Hwf Hv Hs. destruct (render_value_spec c n v Hwf Hv) as (s' & E & Hs').
+  rewrite E. f_equal. apply (counter_repr_functional (abs_table c) (wf_resolved_ok c Hwf) n v); assumption.
+Qed.
+
+(* ------------------------------------------------------------------ anonymous styles: symbols() and <string> *)
+
+(* css-counter-styles-3 section 6: "symbols() defines an anonymous counter
+   style with no name, a prefix of "" and suffix of " ", a range of auto, a
+   fallback of decimal, a negative of "-" (hyphen-minus), a pad of 0 "" ";
+   a <string> used as list-style-type is its own marker (one cyclic symbol,
+   empty suffix) *)
+Definition anon_symbols (s : ssystem) (args : list (list N)) : rstyle :=
+  RStyle s args [] ([45]%N, []) [] [32]%N None (0, []) n_decimal.
+Definition anon_string (str0 : list N) : rstyle :=
+  RStyle SCyclic [str0] [] ([45]%N, []) [] [] None (0, []) n_decimal.
+
+Definition anon_descr (sid : style_id) : option descr :=
+  match sid with
+  | SidName _ => None
+  | SidString s =>
+      Some (Descr (ns_string s_minus) (ns_string []) (ns_string []) (ns_string [])
+                  s_decimal (Sys false s_cyclic (-1)) 0 ns_zero [ns_string s] [] [] true)
+  | SidSymbols sysname args =>
+      Some (Descr (ns_string s_minus) (ns_string []) (ns_string []) (ns_string s_space)
+                  s_decimal (Sys false sysname (if str_eqb sysname s_fixed then 1 else -1))
+                  0 ns_zero (map ns_string args) [] [] true)
+  end.
+
+Lemma map_symbol_ns_string l : map symbol (map ns_string l) = l.
+Proof. induction l as [|x l IH]; simpl; [reflexivity|rewrite IH; reflexivity]. Qed.
+
+Lemma anon_string_abs s d : anon_descr (SidString s) = Some d -> absr d = anon_string s.
+Proof. intros H. injection H as <-. reflexivity. Qed.
+
+Lemma anon_symbols_abs sysname args d :
+  anon_descr (SidSymbols sysname args) = Some d -> absr d = anon_symbols (abs_system d) args.
+Proof.
+  intros H. injection H as <-. unfold absr, complete, anon_symbols, abs_def. simpl.
+  rewrite map_symbol_ns_string. reflexivity.
+Qed.
+
+(* the representation in an anonymous style: the style's own, else decimal *)
+Theorem render_value_style_anon c sid d v :
+  wf_table c -> in_i64 v -> anon_descr sid = Some d -> wfr d ->
+  exists s, RenderValueStyle c v sid = Ok s /\
+            (style_repr (absr d) v (Some s) \/
+             (style_repr (absr d) v None /\ decimal_repr (abs_table c) v s)).
+Proof.
+  intros Hwf Hv Ha Hw.
+  pose proof (resolve_counter_spec c Hwf) as Hres.
+  assert (Hrs : resolve_counter_style c sid [] = Ok (Some d, [])).
+  { destruct sid; simpl in Ha; [discriminate| |]; injection Ha as <-; reflexivity. }
+  assert (Hfb : fallback d = s_decimal).
+  { destruct sid; simpl in Ha; [discriminate| |]; injection Ha as <-; reflexivity. }
+  unfold RenderValueStyle. rewrite Hrs. cbn [bind].
+  unfold render_fuel. replace (length c + 4)%nat with (S (length c + 3)) by lia.
+  cbn [render_value]. rewrite system_triple_eta, system_triple_ext.
+  destruct Hw as (He & Hk & Hen & Hnn). rewrite He. fold (d_kind d).
+  assert (Hw : wfr d) by (repeat split; assumption).
+  destruct (decimal_record c Hwf Hres) as (dec & Hl & Hrc & Hrd & Hwd & Hsd & Hrr).
+  assert (Hdecimal : exists s, (let* (r, prev') := resolve_counter c (fallback d) [] in
+                                render_value (length c + 3) c v r prev') = Ok s /\
+                               decimal_repr (abs_table c) v s).
+  { rewrite Hfb, (Hrc [] eq_refl). cbn [bind].
+    replace (length c + 3)%nat with (S (length c + 2)) by lia.
+    destruct (render_decimal c (length c + 2) v [s_decimal] Hv dec Hl Hwd Hsd Hrr) as (s & E & Hs).
+    exists s. split; [exact E|]. exists (absr dec). split; assumption. }
+  destruct (in_ranges (counter_ranges d (d_kind d)) v) eqn:Ein; cbn [negb].
+  - apply in_ranges_spec in Ein; [|assumption].
+    destruct (render_in_range_spec d v Hw Hv) as (io & Hio & Hrr'). rewrite Hrr'. cbn [bind].
+    destruct io as [s0|]; cbn [option_map].
+    + eexists. split; [reflexivity|]. left. right. split; [assumption|].
+      exists (Some s0). split; [assumption|reflexivity].
+    + destruct Hdecimal as (s & E & Hs). exists s. split; [exact E|]. right. split; [|assumption].
+      right. split; [assumption|]. exists None. split; [assumption|reflexivity].
+  - destruct Hdecimal as (s & E & Hs). exists s. split; [exact E|]. right. split; [|assumption].
+    left. split; [|reflexivity]. intros Hin. apply in_ranges_spec in Hin; [|assumption]. congruence.
 Qed.
